@@ -19,3 +19,10 @@ Theorem C03_ccd_closing : forall (R : ringType) (N M : nat) (G Ginv D Dinv : 'M[
   Ginv *m G = 1%:M -> G *m V = J *m Phi -> Dinv *m J = J *m Phi -> (Ginv *m Dinv) *m J = V.
 Proof. move=> R N M G Ginv D Dinv V J Phi H1 H2 H3. exact: (ccd_closing H1 H2 H3). Qed.
 Print Assumptions C03_ccd_closing.
+
+(* one Knill factor as a circuit: prepare^-1, phase on the basis state z, prepare *)
+Theorem C03_knill_factor : forall (R : comRingType) (n : nat) (P Pinv : 'M[R]_n) (z : 'I_n) (c : R),
+  P *m Pinv = 1%:M ->
+  P *m (1%:M + c *: delta_mx z z) *m Pinv = 1%:M + c *: (col z P *m row z Pinv).
+Proof. move=> R n P Pinv z c H. exact: knill_factor. Qed.
+Print Assumptions C03_knill_factor.
